@@ -968,6 +968,8 @@ class ModelFeatures:
             and self.direct_effect == other.direct_effect
             and self.effect_comp == other.effect_comp
             and self.indirect_effect == other.indirect_effect
+            and self.metabolite == other.metabolite
+            and self.allometry == other.allometry
         )
 
     def _eq_transits(self, other):
